@@ -124,6 +124,37 @@ def multi(text, n, rels):
     return h
 
 
+GROUPED_RELS = [(0, '>=', lambda x: 1.0), (1, '>=', lambda x: 2.0), (2, '<=', lambda x: 3.0), (3, '=', lambda x: R(2) * x[4])]
+GROUPED_LINES = ['x0 >= 1', 'x1 >= 2', 'x2 <= 3', 'x3 = 2*x4']
+GROUPINGS = {
+    'one-block': '\n'.join(GROUPED_LINES),
+    'one-per-string': tuple(GROUPED_LINES),
+    'two-groups': ('\n'.join(GROUPED_LINES[:2]), '\n'.join(GROUPED_LINES[2:])),
+    'uneven-groups': ('\n'.join(GROUPED_LINES[:3]), GROUPED_LINES[3]),
+    'uneven-groups-2': (GROUPED_LINES[0], '\n'.join(GROUPED_LINES[1:])),
+}
+
+
+def grouped(form, join):
+    """the same independent relations handed to generate_solvers as one block / a tuple of strings / tuples of multi-line strings"""
+    def h(ctx):
+        import mystic.symbolic as ms
+        import mystic.constraints as mc
+        n = 5
+        solvers = ms.generate_solvers(GROUPINGS[form], nvars=n)
+        cf = ms.generate_constraint(solvers, join=getattr(mc, join)) if join else ms.generate_constraint(solvers)
+        x = ctx.reals('x', n)
+        y = L.vec(cf(list(x)))
+        obs = []
+        for k, (i, cmp, f) in enumerate(GROUPED_RELS):
+            obs.append(('relation-%d-holds-on-output' % k, rel(cmp, y[i], f(y))))
+        obs.append(('other-coordinate-untouched[4]', eq_exact(y[4], x[4])))
+        allsat = And(*[rel(cmp, x[i], f(x)) for i, cmp, f in GROUPED_RELS])
+        obs.append(('identity-on-feasible-input', Implies(allsat, And(*[eq_exact(y[i], x[i]) for i in range(n)]))))
+        return obs
+    return h
+
+
 BOXES = [([0.0, -1.0], [1.0, 4.0]), ([-2.0], [3.5]), ([1.0, 2.0, -5.0], [1.0, 1e20, 5.0]), ([-1e20, 0.0], [0.0, 1e20])]
 
 
@@ -223,6 +254,9 @@ def instances(tier, seed):
             out.append(Instance('named/%s' % text.replace(' ', ''), h))
     for text, n, rels in MULTI:
         out.append(Instance('multi/%s' % text.replace('\n', ';').replace(' ', ''), multi(text, n, rels)))
+    for form in GROUPINGS:
+        out.append(Instance('grouped/%s' % form, grouped(form, None)))
+    out.append(Instance('grouped/two-groups/join=and_', grouped('two-groups', 'and_')))
     for lo, hi in (BOXES[:2] if q else BOXES):
         out.append(Instance('bounds/%s..%s' % (lo, hi), bounds(lo, hi)))
     out.append(Instance('fp-lemma/strictness', fp_lemma(), qtimeout=250000))
